@@ -26,7 +26,13 @@ fn has_records_for(res: &[NetflowPacket], proto: u16, id: u16) -> bool {
 fn probe_one(m: &HistModel, st: &St, i: usize, proto: u16, id: u16, other_id: u16, out: &mut Vec<Issue>) {
     let body = body12(id as usize % 5 + 40);
     let pn = if proto == 9 { "v9" } else { "ipfix" };
-    let other_known = if proto == 9 { st.refc[i].v9.contains_key(&other_id) } else { st.refc[i].ipfix.contains_key(&other_id) };
+    // the other id counts as known only if data for it can actually be decoded (a V9 definition without fields cannot)
+    let decodable = |t: Option<&RefTpl>| match t {
+        Some(RefTpl::Plain(f)) => f.iter().map(|x| x.len as usize).sum::<usize>() > 0,
+        Some(_) => true,
+        None => false,
+    };
+    let other_known = if proto == 9 { decodable(st.refc[i].v9.get(&other_id)) } else { decodable(st.refc[i].ipfix.get(&other_id)) };
     let lay_a = vec![fs(1, 4), fs(7, 2)];
     let mk = |sets: &[(&str, u16)]| -> Vec<u8> {
         if proto == 9 {
